@@ -35,6 +35,9 @@ pub enum Scene {
 	/// stop() written in the same callback interval as, and after, another playback command (pause / resume / resume_at):
 	/// the sound has been stopped whichever order the audio side reads its command slots in
 	StopAfterOtherCommand,
+	/// seek_to / seek_by to a position at or past the end of the data while the sound plays (no loop): the sound ends, the
+	/// decoder thread ends
+	SeekPastEnd,
 }
 
 #[derive(Clone, Copy, Debug, PartialEq)]
@@ -61,6 +64,8 @@ pub struct CaseSpec {
 	/// number of reverb effects on the main track (makes callbacks long so that a slow decoder delivers
 	/// frames while a chunk is being rendered)
 	pub heavy_main: usize,
+	/// start position in frames (0, or - without a loop - in the middle, exactly at the end, or past the end of the data)
+	pub start: usize,
 }
 
 fn coded(len: usize) -> Arc<Vec<Frame>> {
@@ -159,6 +164,9 @@ pub fn run_case(c: &CaseSpec, stats: &mut Stats, relax_starved_skip: bool) -> Re
 	if let Some((a, b)) = c.lp {
 		settings = settings.loop_region(Region { start: PlaybackPosition::Samples(a), end: EndPosition::Custom(PlaybackPosition::Samples(b)) });
 	}
+	if c.start > 0 {
+		settings = settings.start_position(PlaybackPosition::Samples(c.start));
+	}
 	let data = StreamingSoundData::from_decoder(dec).with_settings(settings);
 	let mut rig = if c.heavy_main == 0 {
 		Rig::simple(sr, 64)
@@ -178,7 +186,7 @@ pub fn run_case(c: &CaseSpec, stats: &mut Stats, relax_starved_skip: bool) -> Re
 	let mut _clock_keep = None;
 	let mut handle: Option<StreamingSoundHandle<String>> = None;
 	let play_res: Result<StreamingSoundHandle<String>, PlaySoundError<String>> = match c.scene {
-		Scene::Main | Scene::ManagerDropped | Scene::HandleDropped | Scene::StoppedWithFade | Scene::NaturalEnd | Scene::PausedSound | Scene::StopAfterOtherCommand => rig.mgr.play(data),
+		Scene::Main | Scene::ManagerDropped | Scene::HandleDropped | Scene::StoppedWithFade | Scene::NaturalEnd | Scene::PausedSound | Scene::StopAfterOtherCommand | Scene::SeekPastEnd => rig.mgr.play(data),
 		Scene::WaitingForClock => {
 			let clock = rig.mgr.add_clock(kira::clock::ClockSpeed::TicksPerSecond(10.0)).map_err(|_| "clock")?;
 			let d = data.start_time(kira::StartTime::ClockTime(kira::clock::ClockTime::from_ticks_u64(clock.id(), 1)));
@@ -280,6 +288,11 @@ pub fn run_case(c: &CaseSpec, stats: &mut Stats, relax_starved_skip: bool) -> Re
 					}
 					h.stop(instant());
 				}
+				Scene::SeekPastEnd => match (c.len + c.packet) % 3 {
+					0 => h.seek_to(c.len as f64 / sr as f64),
+					1 => h.seek_to((c.len + 1000) as f64 / sr as f64),
+					_ => h.seek_by((c.len + 5) as f64 / sr as f64),
+				},
 				Scene::TrackDropped => {
 					track = None;
 					why_end = "the sound's track was dropped".into();
@@ -515,7 +528,8 @@ pub fn run_case(c: &CaseSpec, stats: &mut Stats, relax_starved_skip: bool) -> Re
 fn gen_case(r: &mut Rng, exhaustive_k: Option<(Fault, Scene)>) -> CaseSpec {
 	// some streams are longer than the 16384-frame ring, so the decoder thread is idle (ring full) when the sound ends early
 	let long = r.chance(0.15);
-	let len = if long { r.usize_in(17000, 40000) } else { r.usize_in(1, 3000) };
+	let empty = r.chance(0.03);
+	let len = if long { r.usize_in(17000, 40000) } else if empty { 0 } else { r.usize_in(1, 3000) };
 	let packet = if long { *r.pick(&[500usize, 4096]) } else { *r.pick(&[1usize, 7, 64, 500, 4096]) };
 	let lp = if r.chance(0.3) && len > 2 {
 		let a = r.below(len as u64 - 1) as usize;
@@ -523,7 +537,9 @@ fn gen_case(r: &mut Rng, exhaustive_k: Option<(Fault, Scene)>) -> CaseSpec {
 	} else {
 		None
 	};
-	let scene = exhaustive_k.map(|x| x.1).unwrap_or_else(|| *r.pick(&[Scene::Main, Scene::SubTrack, Scene::Rejected, Scene::PausedTrack, Scene::TrackDropped, Scene::ManagerDropped, Scene::HandleDropped, Scene::StoppedWithFade, Scene::NaturalEnd, Scene::PausedSound, Scene::WaitingForClock, Scene::StopAfterOtherCommand]));
+	let scene = exhaustive_k.map(|x| x.1).unwrap_or_else(|| *r.pick(&[Scene::Main, Scene::SubTrack, Scene::Rejected, Scene::PausedTrack, Scene::TrackDropped, Scene::ManagerDropped, Scene::HandleDropped, Scene::StoppedWithFade, Scene::NaturalEnd, Scene::PausedSound, Scene::WaitingForClock, Scene::StopAfterOtherCommand, Scene::SeekPastEnd]));
+	// (a seek past the end of a looping sound wraps into the loop instead of ending the sound)
+	let lp = if scene == Scene::SeekPastEnd { None } else { lp };
 	let fault = exhaustive_k.map(|x| x.0).unwrap_or_else(|| match r.below(4) {
 		0 => Fault::None,
 		1 => Fault::Decode(1 + r.below((len / packet + 2) as u64)),
@@ -542,6 +558,7 @@ fn gen_case(r: &mut Rng, exhaustive_k: Option<(Fault, Scene)>) -> CaseSpec {
 		chunk: *r.pick(&[16usize, 64, 200]),
 		event_after: if scene == Scene::PausedSound && r.chance(0.6) { 0 } else { r.usize_in(0, 6) },
 		heavy_main: if pace == 1 && r.chance(0.5) { 4 } else { 0 },
+		start: if lp.is_none() && r.chance(0.15) { *r.pick(&[len / 2, len, len + 1, len + 1000]) } else { 0 },
 	}
 }
 
@@ -641,7 +658,7 @@ pub fn run(ctx: &mut Ctx) {
 }
 
 fn confirm_scene(scene: Scene, fault: Fault) -> Option<String> {
-	let c = CaseSpec { scene, fault, len: 40000, packet: 512, lp: None, slow_us: 0, stalled: false, chunk: 64, event_after: 2, heavy_main: 0 };
+	let c = CaseSpec { scene, fault, len: 40000, packet: 512, lp: None, slow_us: 0, stalled: false, chunk: 64, event_after: 2, heavy_main: 0, start: 0 };
 	let mut stats = Stats { starved_skips: 0, faults_reached: 0, threads_ended: 0, inconclusive: 0, callbacks: 0, late_error_notice_max: 0, resumes_after_gap: 0 };
 	match super::guarded(|| run_case(&c, &mut stats, false)) {
 		Ok(Ok(())) => None,
@@ -661,7 +678,7 @@ pub fn confirm(key: &str) -> Option<Option<String>> {
 			for attempt in 0..20u64 {
 				// a slow decoder (one frame per ~60 us) and callbacks long enough (reverbs on the main track,
 				// fully dry so the coded frames are unchanged) that frames arrive while a starved chunk is rendered
-				let c = CaseSpec { scene: Scene::Main, fault: Fault::None, len: 3000, packet: 1, lp: None, slow_us: 20, stalled: false, chunk: 1024, event_after: 1000, heavy_main: 6 + (attempt as usize % 3) };
+				let c = CaseSpec { scene: Scene::Main, fault: Fault::None, len: 3000, packet: 1, lp: None, slow_us: 20, stalled: false, chunk: 1024, event_after: 1000, heavy_main: 6 + (attempt as usize % 3), start: 0 };
 				let mut stats = Stats { starved_skips: 0, faults_reached: 0, threads_ended: 0, inconclusive: 0, callbacks: 0, late_error_notice_max: 0, resumes_after_gap: 0 };
 				let r = super::guarded(|| run_case(&c, &mut stats, false));
 				crate::hooks::release_all();
